@@ -26,6 +26,7 @@ import random
 import numpy as np
 
 from .. import core, encode, inputs, pool
+from . import rel_common as rc
 
 TLA, CFG = "Trace_RandomWalk.tla", "Trace_RandomWalk.cfg"
 KIND = {"findwalks": "findwalks", "mean_first_passage_time": "mfpt",
@@ -44,29 +45,44 @@ def real(x):
     return x.astype(float)
 
 
+def arg_dtype(fn, dtype):
+    """what routine `fn` may be handed for a drawn dtype (rel_common.admissible): findwalks is
+    documented for binary networks and returns walk COUNTS (structural: float32 allowed, exact
+    below 2^24), the spectral measures accept "binary/weighted" networks (bool allowed for a 0/1
+    matrix); MFPT, diffusion efficiency, PageRank and the spectral measures return real values ->
+    no float32; none copies its argument to float before multiplying it -> no unsigned type"""
+    fn = fn.split(":")[0]
+    return rc.admissible(dtype, binary=fn in ("findwalks", "eigenvector_centrality_und", "subgraph_centrality"),
+                         structural=fn == "findwalks")
+
+
 def exec_job(job):
     import bct
     fn = job["fn"].split(":")[0]
-    A = np.array(job["A"], dtype=float)
-    n = len(A)
-    rec = dict(fn=job["fn"], kind=KIND[fn], n=n, A=encode.mat_int(A), raised="", malformed="")
+    A0 = np.array(job["A"], dtype=float)
+    n = len(A0)
+    rec = dict(fn=job["fn"], kind=KIND[fn], n=n, A=encode.mat_int(A0), raised="", malformed="")
+
+    def A():        # a fresh argument array per call: same values, drawn dtype / memory layout
+        return rc.as_variant(A0, job.get("dtype", "float64"), job.get("layout", "C"))
+    A()
     try:
         if fn == "findwalks":
-            out = bct.findwalks(A.copy())
+            out = bct.findwalks(A())
         elif fn == "mean_first_passage_time":
-            out = bct.mean_first_passage_time(A.copy())
+            out = bct.mean_first_passage_time(A())
         elif fn == "diffusion_efficiency":
-            out = (bct.mean_first_passage_time(A.copy()),) + tuple(bct.diffusion_efficiency(A.copy()))
+            out = (bct.mean_first_passage_time(A()),) + tuple(bct.diffusion_efficiency(A()))
         elif fn == "pagerank_centrality":
             rec["dp"], rec["dq"] = job["dp"], job["dq"]
             f = job.get("f")
             rec["f"] = [int(v) for v in f] if f else [1] * n
-            out = bct.pagerank_centrality(A.copy(), job["dp"] / job["dq"],
-                                          falff=np.array(f, dtype=float) if f else None)
+            out = bct.pagerank_centrality(A(), job["dp"] / job["dq"],
+                                          falff=np.array(f, dtype=job.get("f_dtype", "float64")) if f else None)
         elif fn == "eigenvector_centrality_und":
-            out = bct.eigenvector_centrality_und(A.copy())
+            out = bct.eigenvector_centrality_und(A())
         elif fn == "subgraph_centrality":
-            out = bct.subgraph_centrality(A.copy())
+            out = bct.subgraph_centrality(A())
         else:
             raise KeyError(fn)
     except pool.CallTimeout:
@@ -162,24 +178,44 @@ def symmetric_graphs():
     return out
 
 
-def J(fn, A, src, **kw):
-    return dict(fn=fn, A=[[int(v) for v in row] for row in np.asarray(A)], src=src, **kw)
+def J(fn, A, src, variant=rc.PLAIN, **kw):
+    A = np.asarray(A)
+    dt = variant[0]
+    if dt == "bool" and not np.all((A == 0) | (A == 1)):
+        dt = "int32"
+    return dict(fn=fn, A=[[int(v) for v in row] for row in A], src=src, dtype=arg_dtype(fn, dt),
+                layout=variant[1], **kw)
 
 
-def walk_jobs(A, src, rng, falff=False):
+def draw(rng, A, p_plain):
+    """(dtype, layout) draw for one input: 0/1 -> DT_BIN, other non-negative integers -> DT_COUNT;
+    p_plain None = the historical float64 C-contiguous array"""
+    if p_plain is None:
+        return rc.PLAIN
+    A = np.asarray(A)
+    return rc.draw_variant(rng, rc.DT_BIN if np.all((A == 0) | (A == 1)) else rc.DT_COUNT, p_plain)
+
+
+def walk_jobs(A, src, rng, falff=False, p_plain=None):
     """the random-walk measures on one (strongly) connected weighted input."""
     n = len(A)
-    out = [J("mean_first_passage_time", A, src), J("diffusion_efficiency", A, src),
-           J("pagerank_centrality:d=0.5", A, src, dp=1, dq=2),
-           J("pagerank_centrality:d=0.85", A, src, dp=17, dq=20)]
+    v = draw(rng, A, p_plain)
+    out = [J("mean_first_passage_time", A, src, v), J("diffusion_efficiency", A, src, v),
+           J("pagerank_centrality:d=0.5", A, src, v, dp=1, dq=2),
+           J("pagerank_centrality:d=0.85", A, src, v, dp=17, dq=20)]
     if falff:
-        out.append(J("pagerank_centrality:d=0.85:falff", A, src, dp=17, dq=20,
-                     f=[rng.randint(1, 3) for _ in range(n)]))
+        # the initial-probability vector: non-uniform, uniform but explicit (must equal None), or
+        # concentrated on few nodes; handed over as a float or an integer array
+        f = rng.choice([[rng.randint(1, 3) for _ in range(n)], [2] * n,
+                        [1 if rng.random() < 0.4 else 3 for _ in range(n)]])
+        out.append(J("pagerank_centrality:d=0.85:falff", A, src, v, dp=17, dq=20, f=f,
+                     f_dtype=rng.choice(["float64", "int64"]) if p_plain is not None else "float64"))
     return out
 
 
-def spectral_jobs(A, src):
-    return [J("eigenvector_centrality_und", A, src), J("subgraph_centrality", A, src)]
+def spectral_jobs(A, src, rng=None, p_plain=None):
+    v = draw(rng, A, p_plain)
+    return [J("eigenvector_centrality_und", A, src, v), J("subgraph_centrality", A, src, v)]
 
 
 def weightings(rng, edges, k):
@@ -210,25 +246,39 @@ def build_jobs(ctx):
         jobs.append(J("findwalks", und(4, edges), "model"))
     for edges in inputs.sample(rng, inputs.model_graphs(ctx, "und", 5), 100 if q else 1024):
         jobs.append(J("findwalks", und(5, edges), "model"))
+    # a sample of them again as another argument dtype (bool/int32/int64/float32) / memory layout
+    for j in inputs.sample(rng, list(jobs), 150 if q else 2000):
+        jobs.append(J("findwalks", j["A"], j["src"] + "-variant", draw(rng, j["A"], 0.0)))
     for k in range(40 if q else 400):
-        n = rng.randint(5, 7)
-        jobs.append(J("findwalks", inputs.rand_graph(rng, n, rng.choice([0.2, 0.4, 0.7]), und=k % 2 == 0), "random"))
+        if rng.random() < 0.6:
+            n = rng.randint(5, 7)
+            A = inputs.rand_graph(rng, n, rng.choice([0.2, 0.4, 0.7]), und=rng.random() < 0.5)
+            src = "random"
+        else:       # long paths/cycles (walk counts with period 2), complete graphs (largest counts), ...
+            name, n, edges = rc.structured_support(rng, 4, 7)
+            isund = rng.random() < 0.5
+            A = inputs.mat_from_edges(n, edges if isund else rc.orient(rng, edges), und=isund)
+            src = "struct-" + name
+        if rng.random() < 0.2:
+            A[rng.randrange(len(A)), rng.randrange(len(A))] = 1          # maybe a self-loop
+        jobs.append(J("findwalks", A, src, draw(rng, A, 0.4)))
     # ---- random-walk measures: connected graphs n<=4 x ALL weightings over {1,2};
     #      strongly connected digraphs n=3 x all weightings; n=5 / dir n=4 sampled
+    walk_start = len(jobs)
     jobs += walk_jobs(und(2, [(0, 1)]), "model", rng) + walk_jobs(und(2, [(0, 1)], [2]), "model", rng)
     for n in (3, 4):
         for edges in inputs.model_graphs(ctx, "und", n):
             if not inputs.is_connected(und(n, edges), True):
                 continue
             for w in weightings(rng, edges, 64 if (n == 3 or not q) else 6):
-                jobs += walk_jobs(und(n, edges, w), "model", rng, falff=(sum(w) % 3 == 0))
+                jobs += walk_jobs(und(n, edges, w), "model", rng, falff=rng.random() < 0.35)
     for edges in inputs.model_graphs(ctx, "dir", 3):
         A0 = inputs.mat_from_edges(3, edges, und=False)
         if not inputs.is_connected(A0, False):
             continue
         for w in weightings(rng, edges, 64 if not q else 8):
             jobs += walk_jobs(inputs.mat_from_edges(3, edges, und=False, w=w), "model", rng,
-                              falff=(sum(w) % 3 == 0))
+                              falff=rng.random() < 0.35)
     g5 = [e for e in inputs.model_graphs(ctx, "und", 5) if inputs.is_connected(und(5, e), True)]
     for edges in inputs.sample(rng, g5, 60 if q else 728):
         w = [rng.choice([1, 2]) for _ in edges] if rng.random() < 0.6 else None
@@ -242,18 +292,34 @@ def build_jobs(ctx):
         A = und(n, edges)
         if n >= 2 and inputs.is_connected(A, True):
             jobs += walk_jobs(A, "symmetric:" + name, rng)
+    # a sample of those inputs again as int32/int64 arrays / other memory layouts, with falff
+    seen_in = {}
+    for j in jobs[walk_start:]:
+        seen_in.setdefault(str(j["A"]), j)
+    for j in inputs.sample(rng, sorted(seen_in.values(), key=lambda j: str(j["A"])), 70 if q else 1500):
+        jobs += walk_jobs(np.array(j["A"]), j["src"] + "-variant", rng, falff=rng.random() < 0.5, p_plain=0.0)
     for k in range(30 if q else 400):                       # random, some with self-loops
         n = rng.randint(5, 7)
-        A = inputs.rand_graph(rng, n, rng.choice([0.3, 0.5]), und=k % 2 == 0, wmax=3, connected=True)
-        if k % 5 == 0:
+        isund = rng.random() < 0.5
+        A = inputs.rand_graph(rng, n, rng.choice([0.3, 0.5]), und=isund, wmax=rng.choice([1, 3, 3]), connected=True)
+        if rng.random() < 0.2:
             A[rng.randrange(n), rng.randrange(n)] += 1      # a self-loop (or a heavier edge)
-            if k % 2 == 0:
+            if isund:
                 A = np.maximum(A, A.T)
-        jobs += walk_jobs(A, "random", rng, falff=k % 3 == 0)
+        jobs += walk_jobs(A, "random", rng, falff=rng.random() < 0.35, p_plain=0.4)
+    for k in range(20 if q else 300):                       # structured (strongly) connected supports
+        name, n, edges = rc.structured_support(rng, 4, 7)
+        isund = rng.random() < 0.6
+        ws = rng.choice([[1], [1, 2], [2], [1, 2, 3]])
+        arcs = edges if isund else rc.orient(rng, edges)
+        A = inputs.mat_from_edges(n, arcs, und=isund, w=[rng.choice(ws) for _ in arcs])
+        if inputs.is_connected(A, isund):
+            jobs += walk_jobs(A, "struct-" + name, rng, falff=rng.random() < 0.35, p_plain=0.4)
     # out of domain on purpose (must be skipped by the spec, not judged): a disconnected graph
     jobs += walk_jobs(und(4, [(0, 1), (2, 3)]), "out-of-domain", rng)
     # ---- spectral measures: every graph n<=4 (0/1 and a {1,2}-weighting), n=5 (sampled
     #      quick), the symmetric list, random sparse n<=9
+    spec_start = len(jobs)
     for n in (1, 2, 3, 4):
         gl = inputs.model_graphs(ctx, "und", n) if n >= 3 else ([[]] if n == 1 else [[], [(0, 1)]])
         for edges in gl:
@@ -264,18 +330,28 @@ def build_jobs(ctx):
         jobs += spectral_jobs(und(5, edges), "model")
     for name, n, edges in symmetric_graphs():
         jobs += spectral_jobs(und(n, edges), "symmetric:" + name)
+    for j in inputs.sample(rng, jobs[spec_start::2], 100 if q else 1500):
+        jobs += spectral_jobs(np.array(j["A"]), j["src"] + "-variant", rng, p_plain=0.0)
     for k in range(40 if q else 500):
-        n = rng.randint(6, 9)
-        A = inputs.rand_graph(rng, n, rng.choice([0.15, 0.25, 0.35]), und=True, wmax=1 if k % 3 else 2)
-        if k % 7 == 0:
+        if rng.random() < 0.6:
+            n = rng.randint(6, 9)
+            A = inputs.rand_graph(rng, n, rng.choice([0.15, 0.25, 0.35]), und=True, wmax=rng.choice([1, 1, 2]))
+            src = "random"
+        else:       # equal components (repeated eigenvalues), stars / bipartite (symmetric spectra), ...
+            name, n, edges = rc.structured_support(rng, 5, 9)
+            A = und(n, edges)
+            src = "struct-" + name
+        if rng.random() < 0.15:
             A[0, 0] = 1                                      # a self-loop
-        jobs += spectral_jobs(A, "random")
+        jobs += spectral_jobs(A, src, rng, p_plain=0.4)
     return jobs
 
 
 # ----------------------------------------------------------------------- run
 def what(job, rec, clause):
-    return "n=%d source=%s A=%s" % (len(job["A"]), job.get("src"), job["A"] if len(job["A"]) <= 5 else "...")
+    return "n=%d source=%s dtype=%s layout=%s A=%s" % (
+        len(job["A"]), job.get("src"), job.get("dtype", "float64"), job.get("layout", "C"),
+        job["A"] if len(job["A"]) <= 5 else "...")
 
 
 def run(ctx):
@@ -288,7 +364,8 @@ def run(ctx):
     jobs = build_jobs(ctx)
     recs = pool.run_jobs(__name__, jobs)
     verdicts = ctx.validate(TLA, CFG, recs)
-    ctx.judge(jobs, recs, verdicts, what)
+    ctx.judge(jobs, rc.tag_failures(ctx, jobs, recs, verdicts), verdicts, what)
+    ctx.extra["argument_variants"] = rc.variant_counts(jobs)
     seen, per = set(), {}
     for j, r, v in zip(jobs, recs, verdicts):
         if r.get("timeout") or v[0].startswith("skip:"):
@@ -311,7 +388,12 @@ def run(ctx):
                 "prism, octahedron, paths), seeded random connected graphs n in 5..7 with weights 1..3 (some "
                 "self-loops).  Spectral measures: every graph on 1..4 nodes (0/1 and one random {1,2} weighting), "
                 "%s graphs on 5 nodes, the symmetric list incl. disjoint copies, random sparse graphs n in 6..9.  "
-                "Graph supports are TLC-enumerated (spec/GenGraphs.tla).  non-trivial = distinct (routine, input) "
+                "Graph supports are TLC-enumerated (spec/GenGraphs.tla).  A sample of every family again, and most random "
+                "inputs, as another argument dtype (findwalks: bool/int32/int64/float32; the others int32/int64, bool "
+                "for 0/1 spectral inputs) and memory layout (Fortran, transposed, window, strided); structured supports "
+                "(paths, cycles, stars, complete, bipartite, caterpillars, rings of cliques, equal/unequal components) "
+                "for all three groups; falff non-uniform / explicit uniform / concentrated, as float or int array; all "
+                "choices drawn from the seeded RNG.  non-trivial = distinct (routine, input) "
                 "with n >= 3 and at least one connection that the specification judged (not skipped)"
                 % (("250 sampled", "up to 6 (n=4) / all (n<=3)", "up to 8", "60 sampled", "80 sampled", "150 sampled")
                    if ctx.quick else ("all", "all", "all", "all 728", "all 1606", "all 1024")))
